@@ -292,7 +292,7 @@ func (r *inmemRoles) deleteDecided(fn *ssa.Function, at ssa.Instruction, depth i
 	for root.Parent() != nil {
 		root = root.Parent()
 	}
-	isDeleteMethod := root == r.storage["Delete"]
+	isDeleteMethod := root == r.storage["Delete"] || r.removalEntryU(root) // Delete, or a further removal entry point outside the nine contract operations (v_kvs_u.go)
 	// the moment of the decision may be a time parameter of this helper (whether it is a fresh clock reading is decided
 	// where the helper is called, by the fresh-clock rule)
 	nowParam := func(v ssa.Value) bool {
